@@ -38,6 +38,9 @@ func propC17(c *Ctx, r *Report) {
 	r.Clauses = append(r.Clauses, accumClause)
 	c.runAccumLazyInit(r, "accum.lazyinit", func(string) bool { return true })
 	r.floor("accum.lazyinit", 4)
+	r.Clauses = append(r.Clauses, sameSliceClause)
+	c.runBoundsSameSlice(r, "bounds.sameslice", inPkgs("hlsl", "msl", "glsl", "spirv"))
+	r.floor("bounds.sameslice", 100)
 	r.Clauses = append(r.Clauses, optionReadClause+" - binding maps, binding bases, entry-point selection and the other interface options")
 	for _, p := range []string{"spirv/internal/codegen", "msl/internal/codegen", "hlsl/internal/codegen", "glsl/internal/codegen"} {
 		c.runOptionRead(r, "option.read", p, func(f string) bool {
